@@ -563,6 +563,10 @@ class AsyncServer(base_server.BaseServer):
                 packet.CONNECT, {'sid': sid}, namespace=namespace))
         fail_reason = exceptions.ConnectionRefusedError().error_args
         error = None
+        if not self.always_connect:
+            # until the connect handler has accepted it, the client is not
+            # connected: what it sends meanwhile is not dispatched
+            self._deciding.add(sid)
         try:
             if data:
                 success = await self._trigger_event(
@@ -581,6 +585,8 @@ class AsyncServer(base_server.BaseServer):
             # a connect handler that fails has not accepted the client
             error = exc
             success = False
+        finally:
+            self._deciding.discard(sid)
 
         if success is False:
             try:
@@ -628,7 +634,8 @@ class AsyncServer(base_server.BaseServer):
         sid = self.manager.sid_from_eio_sid(eio_sid, namespace)
         self.logger.info('received event "%s" from %s [%s]', data[0], sid,
                          namespace)
-        if not self.manager.is_connected(sid, namespace):
+        if not self.manager.is_connected(sid, namespace) or \
+                sid in self._deciding:
             self.logger.warning('%s is not connected to namespace %s',
                                 sid, namespace)
             return
